@@ -1,5 +1,975 @@
-//! C16 harness (stub: not implemented yet).
+//! C16 — fetch scheduling: at most one fetch per repository, attributed to the right peer.
+//!
+//! Drives the REAL `radicle_node::service::Service` (through `radicle_node::test::peer::Peer` with a
+//! `MockStorage`) with a schedule of the events that `Wire`, the control socket and the timer can
+//! deliver, and prints after every event the scheduling-relevant projection of the service state.
+//!
+//! Case text: `<conc>,<peers>,<repos>,<persist>,<have>,<seed> <op> <op> …`
+//!   * `conc`    `limits.fetch_concurrency`
+//!   * `peers`   number of remote nodes `1..=peers`, `repos` number of repositories `1..=repos`
+//!   * `persist` dot-separated list of persistent peers (`config.connect`), `-` = none
+//!   * `have`    dot-separated list of refs-announcement variants whose tip is already in the refs
+//!               cache (`refs_status_of` then wants nothing), `-` = none
+//!   * `seed`    seed of the service RNG (only the session shuffle in `dequeue_fetches` uses it)
+//! Ops (`n` peer, `r` repo, `v` refs variant ≥ 1, `k` index of the k-th `Io::Fetch` emitted):
+//!   `i<n>`            `Service::connected(n, Inbound)`
+//!   `o<n>`            `Service::connected(n, Outbound)`
+//!   `d<n>`            `Command::Connect(n)`, followed (as `Wire` does on `Io::Connect`) by `attempted(n)`
+//!   `xi<n>:<perm>`    `Service::disconnected(n, Inbound)`;  `xo<n>:<perm>` with `Outbound`
+//!   `c<r>.<n>`        `Command::Fetch(r, n)` (with a result channel)
+//!   `a<r>.<n>.<v>`    refs announcement of `n` for `r` (variant `v`), received from `n`
+//!   `r<k>s:<perm>`    worker result (success) of the k-th fetch: `Service::fetched(rid_k, nid_k, Ok)`;
+//!   `r<k>f:<perm>`    the same with an error result. A `k` that is not outstanding is skipped (`K`).
+//!   `w:<perm>`        61 minutes pass, `Service::wake()`, then `attempted` for every `Io::Connect`
+//! `<perm>` is the order in which `Sessions::shuffled()` will present the sessions to
+//! `dequeue_fetches` in this step (an opaque function of the RNG: its value is computed by the real
+//! code and passed to the model); `?` asks the harness to fill it in, a wrong value is `bad-case`.
+//! Generator-only shorthands, resolved against the real state and replaced in the recorded text:
+//!   `x*<n>:?` (disconnect with the link the session currently has), `r*<j>s:?` (j-th outstanding result).
+//!
+//! Oracle (the property statement on the real state after every event; classes): `panic`,
+//! `double-fetch` / `fetch-not-registered` / `untracked-fetch` (Io::Fetch vs `Service.fetching`),
+//! `fetch-from-unconnected-session`, `session-set-orphan`, `fetch-missing-from-session-set`
+//! (`fetching-lost-on-session-reset` if `connected` was delivered for the connected session before),
+//! `concurrency-exceeded` (`…-after-session-reset`), `queue-overflow`, and — with the harness' own
+//! per-fetch ids — `stale-result-other-peer` / `stale-result-same-peer` (a result completed the entry of
+//! another fetch; the latter is a known finding).
+//!
+//! Output: one item per op, separated by spaces: `P` (panic, run stops), `K` (skipped) or
+//!   `<emitted>/<fetching>/<sessions>` with
+//!   emitted  = `r<rid>n<nid>v<refs>` of every `Io::Fetch` of this step in order (`-` none)
+//!   fetching = `Service.fetching` sorted by rid, same item syntax
+//!   sessions = `n<nid><link i|o><state I|A|C|D>[fetching set].(queue: rid:refs:chan …)` joined by `;`
+
+use std::collections::{BTreeMap, BTreeSet, HashSet};
+use std::net::{IpAddr, Ipv4Addr, SocketAddr};
+use std::str::FromStr;
+use std::sync::OnceLock;
+
+use crossbeam_channel as chan;
+use radicle::crypto::test::signer::MockSigner;
+use radicle::git::Oid;
+use radicle::identity::{DocAt, RepoId};
+use radicle::node::address::{KnownAddress, Source, Store as _};
+use radicle::node::config::PeerConfig;
+use radicle::node::device::Device;
+use radicle::node::refs::Store as _;
+use radicle::node::{Address, Alias, ConnectOptions, Features, NodeId, UserAgent, DEFAULT_TIMEOUT, PROTOCOL_VERSION};
+use radicle::storage::refs::{RefsAt, SIGREFS_BRANCH};
+use radicle::test::storage::MockStorage;
+use radicle_node::service::io::Io;
+use radicle_node::service::message::{AnnouncementMessage, Message, RefsAnnouncement};
+use radicle_node::service::policy::{Scope, SeedingPolicy};
+use radicle_node::service::session::{Session, State};
+use radicle_node::service::{self, Command, DisconnectReason, ServiceState as _};
+use radicle_node::test::peer::{self, Peer};
+use radicle_node::worker::{fetch, FetchError};
+use radicle_node::{Link, LocalDuration, LocalTime, Timestamp};
+use verif_common::*;
+
+const MAX_QUEUE: usize = 128;
+const VARIANTS: usize = 3;
+
+// ---------------------------------------------------------------------------------------------
+// Case text
+
+#[derive(Clone, Debug)]
+struct Cfg {
+    conc: usize,
+    peers: usize,
+    repos: usize,
+    persist: Vec<usize>,
+    have: Vec<usize>,
+    seed: u64,
+}
+
+type Perm = Option<Vec<usize>>;
+
+#[derive(Clone, Debug)]
+enum Op {
+    In(usize),
+    Out(usize),
+    Dial(usize),
+    /// `None` link = resolve to the link the session has now.
+    Dis(Option<Link>, usize, Perm),
+    Cmd(usize, usize),
+    Ann(usize, usize, usize),
+    /// `Ok(k)` = k-th fetch; `Err(j)` = j-th outstanding one (resolved when executed).
+    Res(Result<usize, usize>, bool, Perm),
+    Wake(Perm),
+}
+
+fn dots(s: &str) -> Option<Vec<usize>> {
+    if s == "-" {
+        return Some(vec![]);
+    }
+    s.split('.').map(|x| x.parse().ok()).collect()
+}
+
+fn show_dots(v: &[usize]) -> String {
+    if v.is_empty() {
+        "-".into()
+    } else {
+        v.iter().map(|x| x.to_string()).collect::<Vec<_>>().join(".")
+    }
+}
+
+fn parse_perm(s: &str) -> Option<Perm> {
+    if s == "?" {
+        Some(None)
+    } else {
+        dots(s).map(Some)
+    }
+}
+
+fn parse_cfg(s: &str) -> Option<Cfg> {
+    let f: Vec<&str> = s.split(',').collect();
+    if f.len() != 6 {
+        return None;
+    }
+    let cfg = Cfg {
+        conc: f[0].parse().ok()?,
+        peers: f[1].parse().ok()?,
+        repos: f[2].parse().ok()?,
+        persist: dots(f[3])?,
+        have: dots(f[4])?,
+        seed: f[5].parse().ok()?,
+    };
+    if cfg.peers == 0 || cfg.peers > 9 || cfg.repos == 0 || cfg.repos > 9 || cfg.conc > 64 {
+        return None;
+    }
+    if cfg.persist.iter().any(|p| *p == 0 || *p > cfg.peers) || cfg.have.iter().any(|v| *v == 0 || *v > VARIANTS) {
+        return None;
+    }
+    Some(cfg)
+}
+
+fn parse_op(t: &str, cfg: &Cfg) -> Option<Op> {
+    let peer = |s: &str| -> Option<usize> {
+        let n: usize = s.parse().ok()?;
+        (n >= 1 && n <= cfg.peers).then_some(n)
+    };
+    let repo = |s: &str| -> Option<usize> {
+        let n: usize = s.parse().ok()?;
+        (n >= 1 && n <= cfg.repos).then_some(n)
+    };
+    let (head, perm) = match t.split_once(':') {
+        Some((h, p)) => (h, Some(parse_perm(p)?)),
+        None => (t, None),
+    };
+    let c = head.chars().next()?;
+    let rest = &head[c.len_utf8()..];
+    match (c, perm) {
+        ('i', None) => Some(Op::In(peer(rest)?)),
+        ('o', None) => Some(Op::Out(peer(rest)?)),
+        ('d', None) => Some(Op::Dial(peer(rest)?)),
+        ('x', Some(p)) => {
+            let l = rest.chars().next()?;
+            let n = peer(&rest[1..])?;
+            match l {
+                'i' => Some(Op::Dis(Some(Link::Inbound), n, p)),
+                'o' => Some(Op::Dis(Some(Link::Outbound), n, p)),
+                '*' => Some(Op::Dis(None, n, p)),
+                _ => None,
+            }
+        }
+        ('c', None) => {
+            let (r, n) = rest.split_once('.')?;
+            Some(Op::Cmd(repo(r)?, peer(n)?))
+        }
+        ('a', None) => {
+            let f: Vec<&str> = rest.split('.').collect();
+            if f.len() != 3 {
+                return None;
+            }
+            let v: usize = f[2].parse().ok()?;
+            (v >= 1 && v <= VARIANTS).then_some(())?;
+            Some(Op::Ann(repo(f[0])?, peer(f[1])?, v))
+        }
+        ('r', Some(p)) => {
+            let ok = match rest.chars().last()? {
+                's' => true,
+                'f' => false,
+                _ => return None,
+            };
+            let mid = &rest[..rest.len() - 1];
+            if let Some(j) = mid.strip_prefix('*') {
+                Some(Op::Res(Err(j.parse().ok()?), ok, p))
+            } else {
+                let k: usize = mid.parse().ok()?;
+                (k >= 1).then_some(())?;
+                Some(Op::Res(Ok(k), ok, p))
+            }
+        }
+        ('w', Some(p)) if rest.is_empty() => Some(Op::Wake(p)),
+        _ => None,
+    }
+}
+
+fn link_char(l: Link) -> char {
+    if l.is_inbound() {
+        'i'
+    } else {
+        'o'
+    }
+}
+
+// ---------------------------------------------------------------------------------------------
+// The real service
+
+fn doc() -> DocAt {
+    static DOC: OnceLock<DocAt> = OnceLock::new();
+    DOC.get_or_init(|| radicle::test::arbitrary::gen::<DocAt>(1)).clone()
+}
+
+fn oid(tag: u8, i: usize) -> Oid {
+    Oid::from_str(&format!("{:02x}{:02x}{}", tag, i, "00".repeat(18))).expect("oid")
+}
+
+struct World {
+    alice: Peer<MockStorage, MockSigner>,
+    signers: Vec<Device<MockSigner>>,
+    nids: Vec<NodeId>,
+    addrs: Vec<Address>,
+    rids: Vec<RepoId>,
+    /// Namespace whose `rad/sigrefs` the announcements talk about.
+    ns: NodeId,
+    persist: Vec<usize>,
+    _rx: Vec<chan::Receiver<radicle::node::FetchResult>>,
+}
+
+impl World {
+    fn new(cfg: &Cfg) -> World {
+        let signers: Vec<Device<MockSigner>> =
+            (1..=cfg.peers).map(|i| Device::mock_from_seed([i as u8; 32])).collect();
+        let nids: Vec<NodeId> = signers.iter().map(|s| *s.public_key()).collect();
+        let addrs: Vec<Address> = (1..=cfg.peers)
+            .map(|i| Address::from(SocketAddr::new(IpAddr::V4(Ipv4Addr::new(192, 168, 7, 10 + i as u8)), 8776)))
+            .collect();
+        let ns = *Device::<MockSigner>::mock_from_seed([0xee; 32]).public_key();
+        let rids: Vec<RepoId> = (1..=cfg.repos).map(|j| RepoId::from(oid(0x1d, j))).collect();
+        let storage = MockStorage::new(rids.iter().map(|r| (*r, doc())).collect());
+
+        let mut config = service::Config::test(Alias::from_str("alice").unwrap());
+        // `maintain_connections` (dialling peers from the address book) is represented by the explicit
+        // `d<n>` op; with a static peer set it never dials on its own.
+        config.peers = PeerConfig::Static;
+        config.limits.fetch_concurrency = cfg.conc;
+        for p in &cfg.persist {
+            config.connect.insert((nids[*p - 1], addrs[*p - 1].clone()).into());
+        }
+        let start = LocalTime::from_secs(1_700_000_000);
+        let pc = peer::Config {
+            config,
+            local_time: start,
+            policy: SeedingPolicy::default(),
+            signer: Device::mock_from_seed([0xa1; 32]),
+            rng: fastrand::Rng::with_seed(cfg.seed),
+            tmp: tempfile::TempDir::new().expect("tempdir"),
+        };
+        let mut alice = Peer::config("alice", [192, 168, 7, 1], storage, pc).initialized();
+        for r in &rids {
+            alice.seed(r, Scope::All).expect("seed");
+        }
+        // Every remote node is known (as after its node announcement), so that its refs
+        // announcements are processed.
+        let ts = alice.timestamp();
+        for (i, nid) in nids.iter().enumerate() {
+            alice
+                .database_mut()
+                .addresses_mut()
+                .insert(
+                    nid,
+                    PROTOCOL_VERSION,
+                    Features::default(),
+                    &Alias::from_str(&format!("peer{}", i + 1)).unwrap(),
+                    0,
+                    &UserAgent::default(),
+                    ts,
+                    Some(KnownAddress::new(addrs[i].clone(), Source::Peer)),
+                )
+                .expect("address insert");
+        }
+        for v in &cfg.have {
+            for r in &rids {
+                alice
+                    .database_mut()
+                    .refs_mut()
+                    .set(r, &ns, &SIGREFS_BRANCH, oid(0xaa, *v), start)
+                    .expect("refs set");
+            }
+        }
+        let mut w = World { alice, signers, nids, addrs, rids, ns, persist: cfg.persist.clone(), _rx: vec![] };
+        w.drain(); // Io::Connect of the persistent peers → attempted
+        w
+    }
+
+    fn peer_ix(&self, nid: &NodeId) -> usize {
+        self.nids.iter().position(|n| n == nid).map(|i| i + 1).unwrap_or(0)
+    }
+
+    fn repo_ix(&self, rid: &RepoId) -> usize {
+        self.rids.iter().position(|r| r == rid).map(|i| i + 1).unwrap_or(0)
+    }
+
+    fn refs_token(&self, refs: &[RefsAt]) -> String {
+        match refs {
+            [] => "0".into(),
+            [r] if r.remote == self.ns => {
+                (1..=VARIANTS).find(|v| oid(0xaa, *v) == r.at).map(|v| v.to_string()).unwrap_or("X".into())
+            }
+            _ => "X".into(),
+        }
+    }
+
+    /// Drain the outbox: `Io::Fetch`es are returned, `Io::Connect` is answered with `attempted`
+    /// (what `Wire` does when it processes the connect), everything else is dropped.
+    fn drain(&mut self) -> Vec<(usize, usize, String)> {
+        let ios: Vec<Io> = self.alice.outbox().collect();
+        let mut out = vec![];
+        for io in ios {
+            match io {
+                Io::Fetch { rid, remote, refs_at, .. } => {
+                    let tok = self.refs_token(refs_at.as_deref().unwrap_or(&[]));
+                    out.push((self.repo_ix(&rid), self.peer_ix(&remote), tok));
+                }
+                Io::Connect(nid, addr) => {
+                    self.alice.attempted(nid, addr);
+                }
+                _ => {}
+            }
+        }
+        out
+    }
+
+    /// The order in which the next `Sessions::shuffled()` call presents the sessions, if the session
+    /// of `removed` is dropped first.
+    fn predict_perm(&self, removed: Option<usize>) -> Vec<usize> {
+        let mut s = self.alice.sessions().clone();
+        if let Some(n) = removed {
+            s.remove(&self.nids[n - 1]);
+        }
+        let v: Vec<usize> = s.shuffled().map(|(k, _)| self.peer_ix(k)).collect();
+        v
+    }
+
+    fn session(&self, n: usize) -> Option<&Session> {
+        self.alice.sessions().get(&self.nids[n - 1])
+    }
+
+    fn fetching_map(&self) -> BTreeMap<usize, (usize, String)> {
+        self.alice
+            .fetching()
+            .iter()
+            .map(|(rid, f)| (self.repo_ix(rid), (self.peer_ix(&f.from), self.refs_token(&f.refs_at))))
+            .collect()
+    }
+
+    fn session_set(&self, n: usize) -> Option<BTreeSet<usize>> {
+        match &self.session(n)?.state {
+            State::Connected { fetching, .. } => Some(fetching.iter().map(|r| self.repo_ix(r)).collect()),
+            _ => None,
+        }
+    }
+
+    fn show_state(&self, peers: usize) -> String {
+        let f = self.fetching_map();
+        let fs = if f.is_empty() {
+            "-".to_string()
+        } else {
+            f.iter().map(|(r, (n, v))| format!("r{r}n{n}v{v}")).collect::<Vec<_>>().join(",")
+        };
+        let mut ss = vec![];
+        for n in 1..=peers {
+            if let Some(s) = self.session(n) {
+                let (st, set) = match &s.state {
+                    State::Initial => ('I', vec![]),
+                    State::Attempted => ('A', vec![]),
+                    State::Connected { fetching, .. } => {
+                        let mut v: Vec<usize> = fetching.iter().map(|r| self.repo_ix(r)).collect();
+                        v.sort();
+                        ('C', v)
+                    }
+                    State::Disconnected { .. } => ('D', vec![]),
+                };
+                let q: Vec<String> = s
+                    .queue
+                    .iter()
+                    .map(|q| {
+                        format!(
+                            "{}:{}:{}{}",
+                            self.repo_ix(&q.rid),
+                            self.refs_token(&q.refs_at),
+                            q.channel.is_some() as u8,
+                            if q.from == self.nids[n - 1] { "".to_string() } else { format!("@{}", self.peer_ix(&q.from)) }
+                        )
+                    })
+                    .collect();
+                ss.push(format!(
+                    "n{n}{}{st}[{}]({})",
+                    link_char(s.link),
+                    set.iter().map(|x| x.to_string()).collect::<Vec<_>>().join("."),
+                    q.join(",")
+                ));
+            }
+        }
+        format!("{fs}/{}", if ss.is_empty() { "-".to_string() } else { ss.join(";") })
+    }
+}
+
+// ---------------------------------------------------------------------------------------------
+// One case
+
+struct Run {
+    /// The case text with every `?`/`*` resolved: what is recorded and what the model reads.
+    text: String,
+    /// Per step: the state part of the output (used to recognise steps that changed nothing).
+    noop_last: bool,
+    panicked: bool,
+    /// Outstanding results (fetch indices) at the end, number of fetches emitted.
+    pending: Vec<usize>,
+    nfetch: usize,
+    len: usize,
+}
+
+fn bad() -> (Run, Outcome) {
+    (
+        Run { text: String::new(), noop_last: true, panicked: false, pending: vec![], nfetch: 0, len: 0 },
+        Outcome::new("bad-case").trivial().tag("bad-case"),
+    )
+}
+
+fn execute(input: &str) -> (Run, Outcome) {
+    let mut toks = input.split(' ');
+    let Some(cfg) = toks.next().and_then(parse_cfg) else { return bad() };
+    let mut ops = vec![];
+    for t in toks {
+        match parse_op(t, &cfg) {
+            Some(op) => ops.push(op),
+            None => return bad(),
+        }
+    }
+    let cfg_text = input.split(' ').next().unwrap().to_string();
+    // The whole run is under `catch`: a panic while building the world is a harness bug and is reported as such.
+    let mut world = match catch(|| World::new(&cfg)) {
+        Ok(w) => w,
+        Err(e) => return (bad().0, Outcome::new(format!("setup-panic:{e}")).trivial().violation("harness-setup-panic", e)),
+    };
+
+    let mut text = vec![cfg_text];
+    let mut outs: Vec<String> = vec![];
+    let mut viol: Vec<(String, String)> = vec![];
+    let mut tags: BTreeSet<String> = BTreeSet::new();
+    // k-th emitted fetch (1-based) → (repo, peer)
+    let mut fetches: Vec<(usize, usize)> = vec![];
+    let mut pending: BTreeSet<usize> = BTreeSet::new();
+    // repo → index of the fetch that the entry of `Service.fetching` stands for
+    let mut current: BTreeMap<usize, usize> = BTreeMap::new();
+    let mut reset_seen: HashSet<usize> = HashSet::new();
+    let mut prev_state = world.show_state(cfg.peers);
+    let mut noop_last = true;
+    let mut panicked = false;
+    let mut bad_case = false;
+    tags.insert(format!("conc-{}", cfg.conc.min(3)));
+    tags.insert(format!("peers-{}", cfg.peers));
+    tags.insert(format!("repos-{}", cfg.repos));
+    if !cfg.persist.is_empty() {
+        tags.insert("persistent-peer".into());
+    }
+
+    for (step, op) in ops.iter().enumerate() {
+        let before_map = world.fetching_map();
+        let before_q: usize = (1..=cfg.peers).filter_map(|n| world.session(n)).map(|s| s.queue.len()).sum();
+        // Resolve shorthands and the permutation against the real state.
+        let check_perm = |given: &Perm, predicted: &Vec<usize>| -> bool { given.as_ref().map(|g| g == predicted).unwrap_or(true) };
+        let mut skipped = false;
+        // (kind tag, repo completed by a result, peer whose disconnect/result may free a repo)
+        let (tok, action): (String, Box<dyn FnOnce(&mut World)>) = match op.clone() {
+            Op::In(n) => {
+                if world.session(n).map(|s| s.is_connected()).unwrap_or(false) {
+                    reset_seen.insert(n);
+                    tags.insert("connected-while-connected".into());
+                }
+                tags.insert("op-in".into());
+                (format!("i{n}"), Box::new(move |w: &mut World| {
+                    let (nid, addr) = (w.nids[n - 1], w.addrs[n - 1].clone());
+                    w.alice.connected(nid, addr, Link::Inbound);
+                }))
+            }
+            Op::Out(n) => {
+                if world.session(n).map(|s| s.is_connected()).unwrap_or(false) {
+                    reset_seen.insert(n);
+                    tags.insert("connected-while-connected".into());
+                }
+                tags.insert("op-out".into());
+                (format!("o{n}"), Box::new(move |w: &mut World| {
+                    let (nid, addr) = (w.nids[n - 1], w.addrs[n - 1].clone());
+                    w.alice.connected(nid, addr, Link::Outbound);
+                }))
+            }
+            Op::Dial(n) => {
+                tags.insert("op-dial".into());
+                (format!("d{n}"), Box::new(move |w: &mut World| {
+                    let (nid, addr) = (w.nids[n - 1], w.addrs[n - 1].clone());
+                    w.alice.command(Command::Connect(nid, addr, ConnectOptions::default()));
+                }))
+            }
+            Op::Dis(l, n, p) => {
+                let cur = world.session(n).map(|s| s.link);
+                let l = l.or(cur).unwrap_or(Link::Inbound);
+                let removed = (cur == Some(l) && !world.persist.contains(&n)).then_some(n);
+                let perm = world.predict_perm(removed);
+                if !check_perm(&p, &perm) {
+                    bad_case = true;
+                }
+                tags.insert(if cur == Some(l) { "op-disconnect" } else { "op-disconnect-ignored" }.into());
+                (format!("x{}{n}:{}", link_char(l), show_dots(&perm)), Box::new(move |w: &mut World| {
+                    let nid = w.nids[n - 1];
+                    w.alice.disconnected(nid, l, &DisconnectReason::connection());
+                }))
+            }
+            Op::Cmd(r, n) => {
+                tags.insert("op-fetch-command".into());
+                (format!("c{r}.{n}"), Box::new(move |w: &mut World| {
+                    let (tx, rx) = chan::bounded::<radicle::node::FetchResult>(4);
+                    w._rx.push(rx);
+                    let (rid, nid) = (w.rids[r - 1], w.nids[n - 1]);
+                    w.alice.command(Command::Fetch(rid, nid, DEFAULT_TIMEOUT, tx));
+                }))
+            }
+            Op::Ann(r, n, v) => {
+                if matches!(world.session(n).map(|s| &s.state), Some(State::Attempted | State::Initial)) {
+                    tags.insert("message-from-connecting-peer".into());
+                }
+                tags.insert(format!("op-refs-announcement-v{v}"));
+                (format!("a{r}.{n}.{v}"), Box::new(move |w: &mut World| {
+                    let ann = RefsAnnouncement {
+                        rid: w.rids[r - 1],
+                        refs: vec![RefsAt { remote: w.ns, at: oid(0xaa, v) }].try_into().expect("bounded"),
+                        timestamp: Timestamp::from(*w.alice.clock()) + (step as u64 + 1),
+                    };
+                    let msg: Message = AnnouncementMessage::from(ann).signed(&w.signers[n - 1]).into();
+                    let nid = w.nids[n - 1];
+                    w.alice.receive(nid, msg);
+                }))
+            }
+            Op::Res(sel, ok, p) => {
+                let k = match sel {
+                    Ok(k) => k,
+                    Err(j) => pending.iter().nth(j % pending.len().max(1)).copied().unwrap_or(fetches.len() + 1),
+                };
+                let perm = world.predict_perm(None);
+                if !check_perm(&p, &perm) {
+                    bad_case = true;
+                }
+                let tok = format!("r{k}{}:{}", if ok { 's' } else { 'f' }, show_dots(&perm));
+                if !pending.remove(&k) {
+                    skipped = true;
+                    tags.insert("op-result-skipped".into());
+                    (tok, Box::new(|_: &mut World| {}))
+                } else {
+                    let (r, n) = fetches[k - 1];
+                    tags.insert(if ok { "op-result-ok" } else { "op-result-err" }.into());
+                    (tok, Box::new(move |w: &mut World| {
+                        let (rid, nid) = (w.rids[r - 1], w.nids[n - 1]);
+                        let res = if ok {
+                            Ok(fetch::FetchResult { updated: vec![], namespaces: HashSet::new(), clone: false, doc: doc() })
+                        } else {
+                            Err(FetchError::Io(std::io::ErrorKind::ConnectionReset.into()))
+                        };
+                        w.alice.fetched(rid, nid, res);
+                    }))
+                }
+            }
+            Op::Wake(p) => {
+                let perm = world.predict_perm(None);
+                if !check_perm(&p, &perm) {
+                    bad_case = true;
+                }
+                tags.insert("op-wake".into());
+                (format!("w:{}", show_dots(&perm)), Box::new(|w: &mut World| {
+                    w.alice.elapse(LocalDuration::from_mins(61));
+                }))
+            }
+        };
+        text.push(tok);
+        if bad_case {
+            break;
+        }
+        if skipped {
+            outs.push("K".into());
+            noop_last = true;
+            continue;
+        }
+        let res = catch(|| {
+            action(&mut world);
+            world.drain()
+        });
+        let emitted = match res {
+            Err(msg) => {
+                outs.push("P".into());
+                panicked = true;
+                noop_last = false;
+                tags.insert("panic".into());
+                viol.push(("panic".into(), format!("step {} ({}): {}", step + 1, text.last().unwrap(), msg.replace('\n', " "))));
+                break;
+            }
+            Ok(e) => e,
+        };
+        // ---- bookkeeping for the oracle --------------------------------------------------------
+        let after_map = world.fetching_map();
+        let here = format!("step {} ({})", step + 1, text.last().unwrap());
+        let mut emitted_repos = BTreeSet::new();
+        for (r, n, _) in &emitted {
+            if !emitted_repos.insert(*r) {
+                viol.push(("double-fetch".into(), format!("{here}: two Io::Fetch for repo {r} in one step")));
+            }
+            if let Some((from, _)) = before_map.get(r) {
+                let legit = match op {
+                    Op::Res(..) => {
+                        // the result of this step completed the previous fetch of `r`
+                        text.last().and_then(|t| t[1..].split(|c| c == 's' || c == 'f').next().and_then(|k| k.parse::<usize>().ok()))
+                            .map(|k| fetches[k - 1] == (*r, *from))
+                            .unwrap_or(false)
+                    }
+                    Op::Dis(_, m, _) => m == from,
+                    _ => false,
+                };
+                if !legit {
+                    viol.push(("double-fetch".into(), format!("{here}: Io::Fetch for repo {r} from {n} while it is being fetched from {from}")));
+                }
+            }
+        }
+        if let Op::Res(..) = op {
+            let k: usize = text.last().unwrap()[1..].split(|c| c == 's' || c == 'f').next().unwrap().parse().unwrap();
+            let (r, n) = fetches[k - 1];
+            let completed = before_map.contains_key(&r) && (!after_map.contains_key(&r) || emitted_repos.contains(&r));
+            if completed {
+                tags.insert("result-completes-fetch".into());
+                match current.get(&r) {
+                    Some(c) if *c == k => {}
+                    Some(c) => {
+                        let (_, cn) = fetches[*c - 1];
+                        let class = if cn == n { "stale-result-same-peer" } else { "stale-result-other-peer" };
+                        tags.insert(class.into());
+                        viol.push((class.into(), format!(
+                            "{here}: the result of fetch #{k} (repo {r} from peer {n}) completed fetch #{c} (repo {r} from peer {cn})"
+                        )));
+                    }
+                    None => viol.push(("untracked-fetch".into(), format!("{here}: completed an entry that no Io::Fetch stands for"))),
+                }
+                current.remove(&r);
+            } else {
+                tags.insert("result-ignored".into());
+            }
+        }
+        for (r, n, _) in &emitted {
+            fetches.push((*r, *n));
+            pending.insert(fetches.len());
+            current.insert(*r, fetches.len());
+            match after_map.get(r) {
+                Some((from, _)) if from == n => {}
+                other => viol.push(("fetch-not-registered".into(), format!("{here}: Io::Fetch for repo {r} from {n}, but fetching[{r}] = {other:?}"))),
+            }
+        }
+        current.retain(|r, _| after_map.contains_key(r));
+        for r in after_map.keys() {
+            if !current.contains_key(r) {
+                viol.push(("untracked-fetch".into(), format!("{here}: fetching[{r}] exists but no Io::Fetch was emitted for it")));
+            }
+        }
+        // ---- the property, evaluated on the real state ------------------------------------------
+        let mut per_peer: BTreeMap<usize, usize> = BTreeMap::new();
+        for (r, (from, _)) in &after_map {
+            *per_peer.entry(*from).or_default() += 1;
+            match world.session_set(*from) {
+                None => viol.push(("fetch-from-unconnected-session".into(), format!("{here}: fetching[{r}].from = {from}, which has no connected session"))),
+                Some(set) => {
+                    if !set.contains(r) {
+                        let class = if reset_seen.contains(from) { "fetching-lost-on-session-reset" } else { "fetch-missing-from-session-set" };
+                        tags.insert(class.into());
+                        viol.push((class.into(), format!("{here}: fetching[{r}].from = {from} but session {from} is not marked as fetching {r}")));
+                    }
+                }
+            }
+        }
+        for n in 1..=cfg.peers {
+            if let Some(set) = world.session_set(n) {
+                for r in &set {
+                    if after_map.get(r).map(|(f, _)| *f) != Some(n) {
+                        viol.push(("session-set-orphan".into(), format!("{here}: session {n} is marked as fetching {r} but fetching[{r}] = {:?}", after_map.get(r))));
+                    }
+                }
+                if set.len() > cfg.conc {
+                    viol.push(("concurrency-exceeded".into(), format!("{here}: session {n} fetches {} repos, limit {}", set.len(), cfg.conc)));
+                }
+            }
+            if let Some(s) = world.session(n) {
+                if s.queue.len() > MAX_QUEUE {
+                    viol.push(("queue-overflow".into(), format!("{here}: queue of {n} has {} entries", s.queue.len())));
+                }
+                if s.queue.len() == MAX_QUEUE {
+                    tags.insert("queue-full".into());
+                }
+            }
+            let c = per_peer.get(&n).copied().unwrap_or(0);
+            if c > cfg.conc && world.session_set(n).map(|s| s.len() <= cfg.conc).unwrap_or(true) {
+                let class = if reset_seen.contains(&n) { "concurrency-exceeded-after-session-reset" } else { "concurrency-exceeded" };
+                tags.insert(class.into());
+                viol.push((class.into(), format!("{here}: {c} fetches from peer {n} are registered, limit {}", cfg.conc)));
+            }
+            if c == cfg.conc && cfg.conc > 0 {
+                tags.insert("at-capacity".into());
+            }
+        }
+        // ---- output ------------------------------------------------------------------------------
+        let after_q: usize = (1..=cfg.peers).filter_map(|n| world.session(n)).map(|s| s.queue.len()).sum();
+        if after_q > before_q {
+            tags.insert("queued".into());
+        }
+        if !emitted.is_empty() {
+            tags.insert(match op {
+                Op::Cmd(..) | Op::Ann(..) => "fetch-started-directly",
+                _ => "fetch-started-from-queue",
+            }.into());
+        }
+        let st = world.show_state(cfg.peers);
+        let em = if emitted.is_empty() {
+            "-".to_string()
+        } else {
+            emitted.iter().map(|(r, n, v)| format!("r{r}n{n}v{v}")).collect::<Vec<_>>().join(",")
+        };
+        noop_last = emitted.is_empty() && st == prev_state;
+        outs.push(format!("{em}/{st}"));
+        prev_state = st;
+    }
+    if bad_case {
+        return bad();
+    }
+    // first violation of each class only (a broken state usually stays broken for the rest of the run)
+    let mut seen = HashSet::new();
+    viol.retain(|(c, _)| seen.insert(c.clone()));
+    let nfetch = fetches.len();
+    tags.insert(format!("len-{:02}", ops.len().min(40)));
+    tags.insert(format!("fetches-{}", nfetch.min(6)));
+    let mut o = Outcome::new(outs.join(" "));
+    o.violations = viol;
+    o.nontrivial = nfetch > 0;
+    o.tags = tags.into_iter().collect();
+    (
+        Run { text: text.join(" "), noop_last, panicked, pending: pending.into_iter().collect(), nfetch, len: ops.len() },
+        o,
+    )
+}
+
+fn run_and_record(ctx: &mut Ctx, input: &str) -> Run {
+    let (run, o) = execute(input);
+    let text = if run.text.is_empty() { input.to_string() } else { run.text.clone() };
+    ctx.record(&text, o);
+    run
+}
+
+// ---------------------------------------------------------------------------------------------
+// Generation
+
+/// Alphabet for the exhaustive enumeration after `prefix` (a fully resolved case text).
+fn alphabet(cfg: &Cfg, run: &Run, max_peer: usize, max_repo: usize, rich: bool) -> Vec<(String, usize, usize)> {
+    // (op text, highest peer mentioned, highest repo mentioned)
+    let mut v = vec![];
+    let np = if cfg.persist.is_empty() { (max_peer + 1).min(cfg.peers) } else { cfg.peers };
+    let nr = (max_repo + 1).min(cfg.repos);
+    for n in 1..=np {
+        v.push((format!("i{n}"), n, 0));
+        v.push((format!("xi{n}:?"), n, 0));
+        if rich || cfg.persist.contains(&n) {
+            v.push((format!("d{n}"), n, 0));
+            v.push((format!("o{n}"), n, 0));
+            v.push((format!("xo{n}:?"), n, 0));
+        }
+        for r in 1..=nr {
+            v.push((format!("c{r}.{n}"), n, r));
+            v.push((format!("a{r}.{n}.1"), n, r));
+        }
+    }
+    for k in &run.pending {
+        v.push((format!("r{k}f:?"), 0, 0));
+    }
+    if rich {
+        if let Some(k) = run.pending.first() {
+            v.push((format!("r{k}s:?"), 0, 0));
+        }
+    }
+    v.push(("w:?".into(), 0, 0));
+    v
+}
+
+struct Enum<'a> {
+    ctx: &'a mut Ctx,
+    cfg: Cfg,
+    depth: usize,
+    rich: bool,
+    count: u64,
+    budget: u64,
+    truncated: bool,
+}
+
+impl Enum<'_> {
+    fn dfs(&mut self, prefix: &str, run: &Run, max_peer: usize, max_repo: usize) {
+        if run.len >= self.depth {
+            return;
+        }
+        for (op, p, r) in alphabet(&self.cfg, run, max_peer, max_repo, self.rich) {
+            if self.count >= self.budget {
+                self.truncated = true;
+                return;
+            }
+            let text = format!("{prefix} {op}");
+            let child = run_and_record(self.ctx, &text);
+            self.count += 1;
+            // A step that changed nothing and emitted nothing leads to states already reached by the
+            // shorter schedule: it is recorded (the model must agree that it is a no-op) but not extended.
+            if child.noop_last || child.panicked || child.text.is_empty() {
+                continue;
+            }
+            let t = child.text.clone();
+            self.dfs(&t, &child, max_peer.max(p), max_repo.max(r));
+        }
+    }
+}
+
+fn cfg_text(c: &Cfg) -> String {
+    format!("{},{},{},{},{},{}", c.conc, c.peers, c.repos, show_dots(&c.persist), show_dots(&c.have), c.seed)
+}
+
+fn enumerate(ctx: &mut Ctx, cfg: Cfg, depth: usize, rich: bool, budget: u64) -> (u64, bool) {
+    let prefix = cfg_text(&cfg);
+    let root = Run { text: prefix.clone(), noop_last: false, panicked: false, pending: vec![], nfetch: 0, len: 0 };
+    let mut e = Enum { ctx, cfg, depth, rich, count: 0, budget, truncated: false };
+    e.dfs(&prefix, &root, 0, 0);
+    (e.count, e.truncated)
+}
+
+fn gen_random(rng: &mut Rng, long: bool) -> String {
+    let peers = rng.range(2, 3) as usize;
+    let max_repos = 2 + rng.below(2);
+    let repos = rng.range(1, max_repos) as usize;
+    let cfg = Cfg {
+        conc: *rng.pick(&[1, 1, 1, 2, 2, 3]),
+        peers,
+        repos,
+        persist: if rng.chance(1, 3) { vec![rng.range(1, peers as u64) as usize] } else { vec![] },
+        have: if rng.chance(1, 4) { vec![3] } else { vec![] },
+        seed: rng.below(1 << 32),
+    };
+    let len = if long { rng.range(20, 60) } else { rng.range(6, 24) };
+    let mut s = cfg_text(&cfg);
+    // A rough picture of who is probably connected, only to bias towards meaningful events.
+    let mut up = vec![false; peers + 1];
+    for _ in 0..len {
+        let n = rng.range(1, peers as u64) as usize;
+        let r = rng.range(1, repos as u64) as usize;
+        let op = if !up[n] && rng.chance(2, 3) {
+            up[n] = true;
+            match rng.below(4) {
+                0 => format!("d{n} o{n}"),
+                _ => format!("i{n}"),
+            }
+        } else {
+            match rng.below(20) {
+                0..=4 => format!("c{r}.{n}"),
+                5..=8 => format!("a{r}.{n}.{}", *rng.pick(&[1, 1, 1, 2, 2, 3])),
+                9..=12 => format!("r*{}{}:?", rng.below(4), if rng.chance(1, 3) { 's' } else { 'f' }),
+                13..=14 => {
+                    up[n] = false;
+                    format!("x*{n}:?")
+                }
+                15 => format!("x{}{n}:?", if rng.bool() { 'i' } else { 'o' }),
+                16 => format!("i{n}"),
+                17 => format!("o{n}"),
+                18 => format!("d{n}"),
+                _ => "w:?".to_string(),
+            }
+        };
+        s.push(' ');
+        s.push_str(&op);
+    }
+    s
+}
+
+/// Fill one queue up to (and past) its capacity: `conc = 1`, one fetch in flight, then 130 distinct
+/// queued commands for the same peer.
+fn queue_capacity_case(extra: usize) -> String {
+    let mut s = String::from("1,2,2,-,-,7 i1 i2 c1.1");
+    for _ in 0..(MAX_QUEUE + extra) {
+        s.push_str(" c2.1");
+    }
+    s.push_str(" r1f:? r2f:? r3f:?");
+    s
+}
+
 fn main() {
-    eprintln!("C16: harness not implemented");
-    std::process::exit(3);
+    // sqlite files of the throw-away node databases: keep them off the disk if possible
+    if std::path::Path::new("/dev/shm").is_dir() && std::env::var_os("TMPDIR").is_none() {
+        std::env::set_var("TMPDIR", "/dev/shm");
+    }
+    if let Ok(f) = std::env::var("C16_ANNOTATE") {
+        // authoring aid: print the resolved form and the real output of every line of a file
+        for l in std::fs::read_to_string(f).expect("file").lines() {
+            if l.trim().is_empty() || l.starts_with('#') {
+                println!("{l}");
+                continue;
+            }
+            let (run, o) = execute(l.trim());
+            println!("{}\n#  => {}", run.text, o.output);
+            for (c, m) in o.violations {
+                println!("#  !! {c}: {m}");
+            }
+        }
+        return;
+    }
+    let mut ctx = Ctx::from_args("C16");
+    let (fixed, is_replay) = ctx.fixed_inputs();
+    for i in fixed {
+        ctx.count("corpus-or-replay");
+        run_and_record(&mut ctx, &i);
+    }
+    let mut exhaustive_note = vec![];
+    if !is_replay {
+        let quick = ctx.quick();
+        let t0 = std::time::Instant::now();
+        let base = |conc, peers, repos, persist: Vec<usize>| Cfg { conc, peers, repos, persist, have: vec![], seed: 1 };
+        // (config, depth quick, depth thorough, rich alphabet)
+        let plans: Vec<(Cfg, usize, usize, bool)> = vec![
+            (base(1, 2, 1, vec![]), 5, 7, false),
+            (base(1, 2, 2, vec![]), 4, 6, false),
+            (base(2, 2, 2, vec![]), 4, 6, false),
+            (base(1, 2, 1, vec![]), 4, 5, true),
+            (base(1, 2, 1, vec![2]), 4, 5, false),
+            (base(1, 3, 1, vec![]), 4, 6, false),
+        ];
+        for (cfg, dq, dt, rich) in plans {
+            let d = if quick { dq } else { dt };
+            let label = format!("{}{}", cfg_text(&cfg), if rich { "+rich" } else { "" });
+            let (n, trunc) = enumerate(&mut ctx, cfg, d, rich, if quick { 8_000 } else { 60_000 });
+            exhaustive_note.push(format!("{label}: depth {d}, {n} schedules{}", if trunc { " (TRUNCATED by budget)" } else { "" }));
+        }
+        ctx.note("enumeration_seconds", format!("{:.1}", t0.elapsed().as_secs_f64()));
+        let mut rng = ctx.rng();
+        run_and_record(&mut ctx, &queue_capacity_case(3));
+        let n = ctx.size(1_500, 20_000);
+        for i in 0..n {
+            let input = gen_random(&mut rng, i % 4 == 0);
+            run_and_record(&mut ctx, &input);
+        }
+    }
+    ctx.note("exhaustive", exhaustive_note.join("; "));
+    ctx.finish(
+        "corpus witnesses; exhaustive enumeration (DFS over event schedules, modulo renaming of non-persistent peers and of \
+         repositories, not extending steps that neither changed the observed state nor emitted anything) for the configurations \
+         listed in notes.exhaustive; one queue-capacity case (131 queued fetches); random schedules of 6-60 events over 2-3 peers, \
+         1-3 repos, fetch_concurrency 1-3, optional persistent peer and already-cached refs variant. The session shuffle order of \
+         every dequeue is computed by the real code and passed to the model. non-trivial = at least one Io::Fetch was emitted; \
+         distinct by resolved case text",
+        false,
+    );
 }
